@@ -253,13 +253,13 @@ def gen(rng, tier, n):
     cases = corpus_cases()
     # exhaustive small scopes
     if tier == "thorough":
-        scopes = [(0, True), (1, True), (2, True), (3, True), (4, False)]
+        scopes = [(0, True), (1, True), (2, True), (3, True), (4, True)]
     else:
         scopes = [(0, True), (1, True), (2, True), (3, False)]
     for k, loops in scopes:
         for edges in all_graphs(k, loops):
             cases.append(topo_case(rng, k, edges, "exh%d" % k))
-            if is_dag(range(k), edges) or rng.chance(1, 8):
+            if is_dag(range(k), edges) or rng.chance(1, 8 if k < 4 else 64):
                 cases.append(sm_case(rng, k, edges, "exh%d" % k))
                 if tier == "thorough" and k >= 3:
                     cases.append(sm_case(rng, k, edges, "exh%d" % k))
